@@ -33,7 +33,10 @@ type Tracer struct {
 }
 
 var cur atomic.Pointer[Tracer]
-var once sync.Once
+
+// The dispatcher is installed once, before any library call of the process.
+// With no tracer installed it does one atomic load and returns.
+func init() { bgzf.VerifHook = dispatch }
 
 func dispatch(point string, a, b int64) {
 	t := cur.Load()
@@ -45,7 +48,6 @@ func dispatch(point string, a, b int64) {
 
 // Begin installs a tracer for the current case.
 func Begin(seed int64, level int) *Tracer {
-	once.Do(func() { bgzf.VerifHook = dispatch })
 	t := &Tracer{rng: rand.New(rand.NewSource(seed)), level: level}
 	cur.Store(t)
 	return t
